@@ -2,7 +2,8 @@
 From Coq Require Import Permutation Sorted.
 From HTA.lib Require Import Base Cells Intervals Sweep.
 From HTA.model Require Import C04_Model C07_Model C05_Model.
-From HTA.proof Require Import C04_Proofs C05_Proofs.
+From HTA.gen Require Import KernelRules_gen.
+From HTA.proof Require Import KernelRulesTie C04_Proofs C05_Proofs.
 Open Scope list_scope.
 Open Scope Z_scope.
 
@@ -73,3 +74,10 @@ Example C05_nonvacuous :
   model_types true ex05 = [8; 1; 3; 1; 0; 1; 0] /\
   encode_aggr ["a"; "b"; "c"] (aggr 2 16 (kernels_of_type COMPUTATION ex05)) = ([[0; 8; 4; 1; 3]; [1; 4; 4; 4; 1]], 1).
 Proof. vm_compute. split; reflexivity. Qed.
+
+(* the tie by regeneration: the kernel classification of the model is the chain GENERATED from the current source (get_kernel_type, the codes of
+   KernelType, the three regex wrappers; the regular expressions themselves are compared literally on every run) *)
+Theorem C05_kernel_types_follow_source : forall n,
+  ktype_code (get_kernel_type n) = kernel_type_gen (is_comm_kernel n) (is_memory_kernel n) (is_compute_kernel n).
+Proof. exact kernel_type_is_generated. Qed.
+Print Assumptions C05_kernel_types_follow_source.
